@@ -289,6 +289,46 @@ Section Main.
     repeat split; auto; try lia; try apply Pre'; try (apply Post; assumption).
   Qed.
 
+  (* what one successful tree_next call executes, in terms of the sweep's step k *)
+  Lemma tree_next_unfold steps Oend (k : nat) (t t' : tree) :
+    chain_ok L 0 (q_I q) (q_O q) steps Oend -> Forall sem steps ->
+    q_bps q = breakpoints_of L steps -> q_ntrees q = zlen steps ->
+    p_index (t_pos t) = Z.of_nat k - 1 ->
+    (if p_index (t_pos t) =? -1 then (0, q_I q, q_O q)
+     else (p_right (t_pos t), p_irest (t_pos t), p_orest (t_pos t)))
+      = pre_state 0 (q_I q) (q_O q) steps k ->
+    tree_next q o t = Ok (t', true) ->
+    exists s a a1, nth_error steps k = Some s /\ sem s /\
+      s_left s = fst (fst (pre_state 0 (q_I q) (q_O q) steps k)) /\
+      remove_edges q o t (s_out s) = Ok a /\ insert_edges q o a (s_in s) = Ok a1 /\
+      t' = w_pos a1 (mkPos (Z.of_nat k) (s_left s) (s_right s) (s_out s) (s_in s) (s_irest s) (s_orest s)).
+  Proof.
+    intros CH F EB EN HIdx HPre H.
+    unfold tree_next in H. bind_inv H. destruct a as [p v].
+    destruct v; [|bind_inv H; inversion H].
+    bind_inv H. bind_inv H. inversion H; subst t'. clear H.
+    unfold position_next in E. rewrite HPre in E.
+    destruct (pre_state 0 (q_I q) (q_O q) steps k) as [[tl0 ib] oc] eqn:PS.
+    destruct (span (fun ie => iright ie =? tl0) oc) as [out orest'] eqn:SO.
+    destruct (span (fun ie => ileft ie =? tl0) ib) as [inn irest'] eqn:SI.
+    rewrite HIdx in E. replace (Z.of_nat k - 1 + 1) with (Z.of_nat k) in E by lia.
+    destruct (Z.of_nat k =? q_ntrees q) eqn:EK; [inversion E|].
+    bind_inv E. inversion E; subst p. clear E.
+    assert (KL : Z.of_nat k < zlen steps).
+    { match goal with X : get (q_bps q) _ = Ok _ |- _ => pose proof (get_inv _ _ _ X) as GI end.
+      rewrite EB, breakpoints_len in GI. lia. }
+    destruct (zlen_nth_error steps k KL) as [s Hs].
+    pose proof (chain_nth L _ _ _ _ _ CH k s Hs) as CN. rewrite PS in CN.
+    destruct CN as (C1 & C2 & C3 & C4).
+    rewrite SO in C2. rewrite SI in C3. inversion C2; inversion C3; subst.
+    destruct (bps_get L _ _ _ _ _ CH k s Hs) as [_ BG]. rewrite <- EB in BG.
+    match goal with X : get (q_bps q) _ = Ok ?r |- _ => rewrite X in BG; inversion BG; subst r end.
+    assert (Fs : sem s) by (rewrite Forall_forall in F; apply F; eapply nth_error_In; eauto).
+    simpl in E0, E1.
+    exists s, a, a0. split; [exact Hs|]. split; [exact Fs|]. split; [reflexivity|].
+    split; [exact E0|]. split; [exact E1|]. reflexivity.
+  Qed.
+
   Lemma tree_at_index_at_step steps Oend :
     chain_ok L 0 (q_I q) (q_O q) steps Oend -> Forall sem steps ->
     q_bps q = breakpoints_of L steps -> q_ntrees q = zlen steps -> q_N q = N ->
